@@ -378,7 +378,9 @@ def run (lines : Array String) : Driver.Report := Id.run do
         | _ => "?"
       r := r.check n line impl mtext
       r := r.bump s!"done_{(ires.splitOn ":").headD ""}"
-      st := { st with sub := s' }
+      -- a submission whose greatest height is not above the last submitted one is refused by
+      -- `PreparedSubmission` (unrecoverable): the loop stops, loudly
+      st := { st with sub := s', gFailed := st.gFailed || ires == "submit-failed" }
     | ["batch", "end"] =>
       if ¬ st.active then r := r.addDisagree n line "no-session" else
       r := r.check n line impl s!"pend={pendText st.sub} cap={decide (st.sub.pending.isNone)} failed={st.sub.failed}"
